@@ -111,6 +111,11 @@ func Do(ctx context.Context, st *oci.Store, s *Script, o Op, dir string) error {
 		return st.Tag(ctx, descOf(s.Blob(o.Blob), o.Variant), RefName(o.Ref))
 	case "untag":
 		return st.Untag(ctx, RefName(o.Ref))
+	case "tagdigest":
+		b := s.Blob(o.Blob)
+		return st.Tag(ctx, Desc(b), b.Digest())
+	case "untagdigest":
+		return st.Untag(ctx, s.Blob(o.Blob).Digest())
 	case "delete":
 		return st.Delete(ctx, descOf(s.Blob(o.Blob), o.Variant))
 	case "saveindex":
